@@ -322,8 +322,8 @@ def check_case(case, rec):
         f2a, f2b = float(lens.paraxial.f2()), float(lens2.paraxial.f2())
         se_a = np.asarray(lens.aberrations.seidels(), float)
         se_b = np.asarray(lens2.aberrations.seidels(), float)
-        sc = max(1e-12 * abs(f2a), float(np.max(np.abs(se_a))))      # sums that are pure rounding noise are not compared
-        ok = abs(f2b - s * f2a) <= 1e-9 * abs(s * f2a) and bool(np.all(np.abs(se_b - s * se_a) <= 1e-7 * sc * s + 1e-18))
+        sc = float(np.max(np.abs(se_a)))      # sums below 1e-12 focal lengths are rounding noise (e.g. all-zero mirror sums)
+        ok = abs(f2b - s * f2a) <= 1e-9 * abs(s * f2a) and bool(np.all(np.abs(se_b - s * se_a) <= 1e-7 * sc * s + 1e-12 * abs(f2a) * s))
         rec.check('length-scaling-seidel-f2', ok, msg=f'scaling all lengths by {s:.4g}: f2 {f2a}->{f2b}, Seidel sums {se_a}->{se_b} (expected x s)')
     elif rel == 'scale_system':
         s = case['s']
@@ -356,7 +356,7 @@ def check_case(case, rec):
         cmp_records(rec, 'scale_system-rays', B2, B1, scale * s, tol * 10, f'rays through scale_system({s:.4g}) differ from the rebuilt scaled lens')
         f2_1 = float(lens.paraxial.f2())
         se_1 = np.asarray(lens.aberrations.seidels(), float)
-        sc = max(1e-12 * abs(f2_0), float(np.max(np.abs(se_0))))
-        ok = abs(f2_1 - s * f2_0) <= 1e-9 * abs(s * f2_0) and bool(np.all(np.abs(se_1 - s * se_0) <= 1e-7 * sc * s + 1e-18))
+        sc = float(np.max(np.abs(se_0)))
+        ok = abs(f2_1 - s * f2_0) <= 1e-9 * abs(s * f2_0) and bool(np.all(np.abs(se_1 - s * se_0) <= 1e-7 * sc * s + 1e-12 * abs(f2_0) * s))
         rec.check('length-scaling-seidel-f2', ok, msg=f'scale_system({s:.4g}): f2 {f2_0}->{f2_1}, Seidel sums {se_0}->{se_1} (expected x s)')
     rec.sample(dict(case={k: v for k, v in case.items() if k != 'info'}, image_y=A['y'][-1][:4]))
